@@ -1,5 +1,6 @@
 """C07 — numeric expressions evaluate to their arithmetic value."""
 import random
+import re
 
 import exprgen as X
 import impl
@@ -21,8 +22,13 @@ ISA = {
     'description': 'c07', 'general': {'address_size': 16, 'endian': 'big', 'registers': ['rq']},
     'operand_sets': {'imm': {'operand_values': {'v': {'type': 'numeric', 'argument': {'size': 512, 'byte_align': True}}}}},
     'instructions': {'nop': {'bytecode': {'value': 0, 'size': 8}},
-                     'ldq': {'bytecode': {'value': 1, 'size': 8}, 'operands': {'count': 1, 'operand_sets': {'list': ['imm']}}}},
+                     'ldq': {'bytecode': {'value': 1, 'size': 8}, 'operands': {'count': 1, 'operand_sets': {'list': ['imm']}}},
+                     # the offset of an indirect register operand is an expression too: `[rq + E]` is E, `[rq - E]` is `0 - E`
+                     'ldo': {'bytecode': {'value': 2, 'size': 8}, 'operands': {'count': 1, 'operand_sets': {'list': ['off']}}}},
 }
+ISA['operand_sets']['off'] = {'operand_values': {'o': {'type': 'indirect_register', 'register': 'rq', 'bytecode': {'value': 3, 'size': 8},
+                                                        'offset': {'size': 512, 'byte_align': True}}}}
+OFFSET_TEXT = re.compile(r'[\s\w+\-*/&|^()$%]+')        # what the bracket pattern of the operand admits
 
 
 def gen_env(rng):
@@ -104,8 +110,16 @@ def gen_case(rng, tier, fixed=None):
                 'via_operand': False}
     if r < 0.58:
         s, k = gen_valid_text(rng, env, depth, labels)
-        return {'kind': 'valid', 'env': env, 'exprs': [s], 'end': False, 'nops': k, 'endian': 'big',
-                'via_operand': True}
+        c = {'kind': 'valid', 'env': env, 'exprs': [s], 'end': False, 'nops': k, 'endian': 'big', 'via_operand': True}
+        if rng.random() < 0.5:
+            # the sign in front of the offset is a BINARY operator: `rq - 7 % 4` is rq - (7 % 4), and `rq - 9 - 2` is (rq - 9) - 2
+            a, b, d = rng.randint(1, 40), rng.randint(2, 9), rng.randint(1, 9)
+            s2 = rng.choice([f'{a} % {b}', f'{a} % {b} + {d}', f'{a} * {d} % {b}', f'{a} % {b} * {d}', f'{a} / {b}', f'{a} - {d}',
+                             f'{a} % {b} - {d}', f'({a} % {b})', f'{a} % {b} % {d + 1}'])
+            c['exprs'], c['nops'] = [s2], 2
+        if rng.random() < 0.6 and OFFSET_TEXT.fullmatch(c['exprs'][0]) and c['exprs'][0].strip():
+            c['offset_sign'] = rng.choice(['+', '-', '-'])
+        return c
     if r < 0.68:
         # evaluation errors
         t = X.gen_tree(rng, 2, labels)
@@ -145,6 +159,8 @@ def generate(rng, tier):
     for c in cases:
         # a third channel: parse_expression(text).get_value(scope) called directly (function-level probe, no statement
         # syntax around the text, so blank text and ''' are in scope too)
+        if c.get('offset_sign'):
+            continue
         if len(c['exprs']) == 1 and rng.random() < 0.3:
             c['direct'] = True
             continue
@@ -158,7 +174,9 @@ def generate(rng, tier):
 def asm_text(case):
     lines = [f'{k} = {v}' for k, v in case['env'].items()]
     for e in case['exprs']:
-        if case['via_operand']:
+        if case.get('offset_sign'):
+            lines.append(f'ldo [rq {case["offset_sign"]} {e}]')
+        elif case['via_operand']:
             lines.append('ldq ' + e)
         else:
             lines.append('.8byte ' + e)
@@ -179,6 +197,8 @@ def to_model(case):
     env = [[k, v] for k, v in case['env'].items()]
     if case['end']:
         env.append(['end_lbl', 8 * len(case['exprs'])])
+    if case.get('offset_sign') == '-':
+        return [{'op': 'expr', 'text': '0 - ' + e, 'env': env} for e in case['exprs']]
     return [{'op': 'expr', 'text': e, 'env': env} for e in case['exprs']]
 
 
@@ -186,7 +206,9 @@ def judge(case, ir, mrs):
     tags = ['kind=' + case['kind']]
     if case.get('how'):
         tags.append('fault=' + case['how'])
-    if case['via_operand']:
+    if case.get('offset_sign'):
+        tags.append('via-indirect-register-offset' + case['offset_sign'])
+    elif case['via_operand']:
         tags.append('via-operand')
     det = f'exprs={case["exprs"]!r} env={case["env"]}'
     if ir['status'] == 'timeout':
@@ -223,7 +245,11 @@ def judge(case, ir, mrs):
     exp = bytearray()
     for m in mrs:
         v = m['value']
-        if case['via_operand']:
+        if case.get('offset_sign'):
+            if not (-(1 << 511) <= v < (1 << 512)):
+                return {'verdict': Verdict.CORR, 'tags': tags, 'detail': det + ' value does not fit the 512-bit offset but was assembled'}
+            exp += b'\x02\x03' + (v % (1 << 512)).to_bytes(64, case['endian'])
+        elif case['via_operand']:
             if not (-(1 << 511) <= v < (1 << 512)):
                 return {'verdict': Verdict.CORR, 'tags': tags, 'detail': det + ' value does not fit the 512-bit operand but was assembled'}
             exp += b'\x01' + (v % (1 << 512)).to_bytes(64, case['endian'])
